@@ -253,7 +253,7 @@ def smaller_sum_solution(an, total, budget=3000000):
 
 def simple_formula_composition(txt):
     """Composition {Z: count, 0: charge} of formulas of the restricted shape used in TEXTBOOK:
-    (Element[count] | '(' ... ')'[count])+ ['+'|'-' [n]];  'e-' is the electron."""
+    (Element[count] | '(' ... ')'[count])+ ['+'|'-' [n]];  'e-' is the electron; count = digits['.'digits]."""
     if txt == "e-":
         return {0: -1}
     body, charge = txt, 0
@@ -286,7 +286,11 @@ def simple_formula_composition(txt):
             j = pos[0]
             while j < len(body) and body[j].isdigit():
                 j += 1
-            mult = int(body[pos[0]:j]) if j > pos[0] else 1
+            if j > pos[0] and j + 1 < len(body) and body[j] == "." and body[j + 1].isdigit():
+                j += 1                                  # decimal subscript ('Fe0.95O'): exact Fraction of the text
+                while j < len(body) and body[j].isdigit():
+                    j += 1
+            mult = Fraction(body[pos[0]:j]) if j > pos[0] else 1
             pos[0] = j
             for k, v in inner.items():
                 comp[k] = comp.get(k, 0) + v * mult
@@ -394,17 +398,24 @@ def _finalize_synthetic(raw):
                 plan = "planted"
     else:
         plan = "free"
+    if raw.get("prune_zero") and plan == "planted" and sum(1 for c in v if c) >= 2 and 0 in v:
+        # leave out the species the planted vector does not use (they would be superfluous)
+        keep = [i for i in range(n) if v[i]]
+        comps, side, v = [comps[i] for i in keep], [side[i] for i in keep], [v[i] for i in keep]
+        perm = [raw["perm"][i] for i in keep]
+        raw = dict(raw, perm=perm, names=[raw["names"][i] for i in keep] if raw.get("names") else None)
+        n = len(keep)
     if all(side):
         side[-1] = False
     elif not any(side):
         side[-1] = True
-    names = ["S%d" % p for p in raw["perm"]]
+    names = raw.get("names") or ["S%d" % p for p in raw["perm"]]
     case = {
-        "kind": "synthetic", "plan": plan,
+        "kind": raw.get("kind", "synthetic"), "plan": plan,
         "species": {names[i]: _comp_json(comps[i]) for i in range(n)},
         "reac": [names[i] for i in range(n) if not side[i]],
         "prod": [names[i] for i in range(n) if side[i]],
-        "container": raw["container"], "substances": "dict",
+        "container": raw["container"], "substances": raw.get("substances", "dict"),
     }
     if any(v.denominator != 1 for c in comps for v in c.values()):
         case["decimal"] = True      # some composition entry is passed to chempy as a float
@@ -536,3 +547,290 @@ def duplicate_cases(draw):
     if out["substances"] == "string":
         out["substances"] = "dict"
     return out
+
+
+# ---------------------------------------------------------------------------
+# 'large': 7-16 species, nullity 1-3 by construction
+# ---------------------------------------------------------------------------
+# A positive integer vector x and a placement are drawn first.  The species are joined by a spanning forest of d trees
+# (every tree has species on both sides; every edge joins a reactant i and a product j and is one composition key
+# that occurs in just these two species, with counts t*x_j/g and t*x_i/g, so the key balances exactly for x).  The
+# n-d edge rows are independent, hence the solution space is d-dimensional and contains x > 0.  Row operations that
+# do not change the solution space then make it look like chemistry: a key is added to another one (an atom that
+# always comes with another atom), redundant keys are appended, one key is turned into a signed charge row.
+
+_XS = [1, 1, 2, 1, 3, 2, 4, 6, 5]
+_LARGE_PLANS = ["planted"] * 7 + ["wrong_side"] * 2 + ["drop"]
+
+
+@st.composite
+def _raw_large(draw, min_species=7, max_species=16):
+    n = draw(st.integers(min_species, max_species))
+    d = draw(st.sampled_from([1, 1, 1, 2, 1, 3, 2, 1]))
+    nrows = n - d
+    small = st.sampled_from([1, 1, 2])
+    return {
+        "n": n, "d": d,
+        "x": draw(st.lists(st.sampled_from(_XS), min_size=n, max_size=n)),
+        "side": draw(st.lists(st.booleans(), min_size=n, max_size=n)),
+        "comp": draw(st.lists(st.integers(0, d - 1), min_size=n, max_size=n)),
+        "attach": draw(st.lists(st.integers(0, 15), min_size=n, max_size=n)),
+        "t": draw(st.lists(small, min_size=n, max_size=n)),
+        "mix": draw(st.lists(st.tuples(st.integers(0, nrows - 1), st.integers(0, nrows - 1), small), max_size=n)),
+        "extra": draw(st.lists(st.tuples(st.integers(0, nrows - 1), st.integers(0, nrows - 1), small, small),
+                               max_size=2)),
+        "charge": draw(st.sampled_from(["none", "none", "replace", "extra"])),
+        "charge_op": draw(st.tuples(st.integers(0, nrows - 1), st.integers(0, nrows - 1), small, small)),
+        "plan": draw(st.sampled_from(_LARGE_PLANS)),
+        "flip": draw(st.integers(0, n - 1)),
+        "perm": draw(st.permutations(list(range(n)))),
+        "container": draw(st.sampled_from(["list", "set"])),
+    }
+
+
+def _finalize_large(raw):
+    n, d, x = raw["n"], raw["d"], raw["x"]
+    side, comp = list(raw["side"]), list(raw["comp"])       # side True = product
+    rows = []
+    for i in range(n):
+        if i < 2 * d:                                        # the first reactant / product of every tree
+            side[i], comp[i] = bool(i % 2), i // 2
+            if i % 2 == 0:
+                continue
+            j = i - 1
+        else:
+            cand = [j for j in range(i) if comp[j] == comp[i] and side[j] != side[i]]
+            j = cand[raw["attach"][i] % len(cand)]
+        g = gcd(x[i], x[j])
+        rows.append({i: raw["t"][i] * x[j] // g, j: raw["t"][i] * x[i] // g})
+
+    def lin(ca, a, cb, b):
+        out = {}
+        for k in set(rows[a]) | set(rows[b]):
+            v = ca * rows[a].get(k, 0) + cb * rows[b].get(k, 0)
+            if v:
+                out[k] = v
+        return out
+
+    for a, b, c in raw["mix"]:
+        if a != b:
+            new = lin(1, a, c, b)
+            if max(new.values()) <= 40:
+                rows[a] = new
+    keys = list(range(1, len(rows) + 1))
+    for a, b, c1, c2 in raw["extra"]:
+        new = lin(c1, a, c2, b) if a != b else lin(c1 + 1, a, 0, b)
+        if max(new.values()) <= 60:
+            rows.append(new)
+            keys.append(len(rows))
+    a, b, c1, c2 = raw["charge_op"]
+    charge = raw["charge"] if a != b else "none"
+    if charge != "none":
+        new = lin(c1, a, -c2, b)
+        if not new:
+            charge = "none"
+        elif charge == "replace":
+            kept = [r for i_, r in enumerate(rows) if i_ != a]
+            if all(any(i in r for r in kept) for i in range(n)):    # every species keeps some element
+                rows[a] = new
+                keys[a] = 0
+            else:
+                charge = "extra"
+        if charge == "extra":
+            rows.append(new)
+            keys.append(0)
+    plan = raw["plan"]
+    idx = list(range(n))
+    f = raw["flip"]
+    if plan == "wrong_side":
+        side[f] = not side[f]
+        if all(side) or not any(side):
+            side[f] = not side[f]
+            plan = "planted"
+    elif plan == "drop":
+        rest = [side[i] for i in idx if i != f]
+        if all(rest) or not any(rest):
+            plan = "planted"
+        else:
+            idx.remove(f)
+    names = {i: "S%d" % p for i, p in zip(range(n), raw["perm"])}
+    order = sorted(idx, key=lambda i: raw["perm"][i])
+    return {
+        "kind": "large", "plan": plan,
+        "species": {names[i]: {str(k): r[i] for k, r in sorted(zip(keys, rows)) if i in r} for i in order},
+        "reac": [names[i] for i in order if not side[i]],
+        "prod": [names[i] for i in order if side[i]],
+        "container": raw["container"], "substances": "dict",
+    }
+
+
+_UNION_POOL = []
+
+
+def _union_pool():
+    """Textbook reactions with a positive single ray (the building blocks of an overall equation)."""
+    if not _UNION_POOL:
+        for i, (r, p) in enumerate(TEXTBOOK):
+            r, p = r.split(), p.split()
+            an = analyse({"species": {s: _comp_json(simple_formula_composition(s)) for s in r + p},
+                          "reac": r, "prod": p})
+            if an["nullity"] == 1 and an["feasible"]:
+                _UNION_POOL.append(i)
+    return _UNION_POOL
+
+
+@st.composite
+def textbook_union_cases(draw, min_species=7, max_species=16):
+    """Two to five species-disjoint textbook processes written as one overall equation (as formulas)."""
+    pool = _union_pool()
+    start = draw(st.lists(st.integers(0, len(pool) - 1), min_size=2, max_size=5, unique=True))
+    reac, prod = [], []
+    # the drawn reactions first; then, if still fewer than min_species, the following ones of the pool
+    for k in start + [(start[-1] + 1 + j) % len(pool) for j in range(len(pool))]:
+        r, p = TEXTBOOK[pool[k]]
+        r, p = r.split(), p.split()
+        if (set(r) | set(p)) & (set(reac) | set(prod)) or len(reac) + len(prod) + len(r) + len(p) > max_species:
+            continue
+        if draw(st.booleans()):
+            r, p = p, r
+        reac, prod = reac + r, prod + p
+        if len(reac) + len(prod) >= min_species and k not in start[:2]:
+            break
+    tweak = draw(st.sampled_from(["none", "none", "none", "none", "move", "none"]))
+    if tweak == "move":
+        i = draw(st.integers(0, len(reac) + len(prod) - 1))
+        if i < len(reac) and len(reac) > 1:
+            prod = prod + [reac[i]]
+            reac = reac[:i] + reac[i + 1:]
+        elif i >= len(reac) and len(prod) > 1:
+            j = i - len(reac)
+            reac = reac + [prod[j]]
+            prod = prod[:j] + prod[j + 1:]
+        else:
+            tweak = "none"
+    order = draw(st.permutations(list(range(len(reac) + len(prod)))))
+    rank = {s: order[i] for i, s in enumerate(reac + prod)}
+    reac, prod = sorted(reac, key=rank.get), sorted(prod, key=rank.get)
+    return {
+        "kind": "textbook_union", "plan": tweak,
+        "species": {s: _comp_json(simple_formula_composition(s)) for s in reac + prod},
+        "reac": reac, "prod": prod,
+        "container": draw(st.sampled_from(["list", "set"])),
+        "substances": draw(st.sampled_from(["none", "dict", "string"])),
+    }
+
+
+def large_cases():
+    return st.integers(0, 3).flatmap(lambda k: textbook_union_cases() if k == 3 else
+                                     _raw_large().map(_finalize_large))
+
+
+# ---------------------------------------------------------------------------
+# 'fractional': formula-like species with one or two decimal subscripts (non-stoichiometric compounds)
+# ---------------------------------------------------------------------------
+
+_NS_ELEMENTS = ["H", "Fe", "Co", "La", "Sr", "U", "Ce", "Gd", "Ti", "Ni", "Li", "Na", "W", "Zr", "Y", "C", "Mn", "Cu",
+                "Ba", "S"]
+_NS_FRACTIONS = ([Fraction(k, 10) for k in (5, 1, 9, 2, 8, 3, 7, 4, 6)] +            # tenths
+                 [Fraction(k, 20) for k in (19, 1, 17, 3, 15, 5, 13, 7, 11, 9)] +     # steps of 0.05
+                 [Fraction(k, 4) for k in (1, 3)])                                    # quarters
+
+
+def decimal_text(fr):
+    """'0.95' for 19/20 (denominators dividing 1000), '3' for 3."""
+    fr = Fraction(fr)
+    if fr.denominator == 1:
+        return str(fr.numerator)
+    q = fr * 1000
+    if q.denominator != 1:
+        raise ValueError(fr)
+    return ("%d.%03d" % divmod(int(q), 1000)).rstrip("0")
+
+
+def formula_text(comp, order):
+    return "".join(e + ("" if comp[e] == 1 else decimal_text(comp[e])) for e in order if comp.get(e))
+
+
+@st.composite
+def _raw_fractional(draw):
+    others = draw(st.lists(st.sampled_from(_NS_ELEMENTS), min_size=1, max_size=3, unique=True))
+    elems = others + ["O"]                                   # formula order: cations first, oxygen last
+    nk = len(elems)
+    delta = draw(st.sampled_from([1, 1, 1, 2, 1, 0]))
+    n = max(2, min(7, nk + delta))
+    comps = []
+    for i in range(n):
+        kind = draw(st.sampled_from(["fresh", "element", "fresh", "oxide", "fresh", "combo"]))
+        if kind == "element" or (kind == "combo" and i < 2):
+            comp = {elems[draw(st.integers(0, nk - 1))]: Fraction(draw(st.sampled_from([1, 2, 1, 4])))}
+        elif kind == "oxide":
+            comp = {elems[draw(st.integers(0, nk - 2))]: Fraction(draw(st.integers(1, 3))),
+                    "O": Fraction(draw(st.integers(1, 5)))}
+        elif kind == "fresh":
+            vals = draw(st.lists(st.integers(0, 3), min_size=nk, max_size=nk))
+            comp = {e: Fraction(v) for e, v in zip(elems, vals) if v}
+            if not comp:
+                comp = {"O": Fraction(2)}
+        else:
+            a, b = comps[draw(st.integers(0, i - 1))], comps[draw(st.integers(0, i - 1))]
+            ca, cb = draw(st.integers(1, 2)), draw(st.integers(1, 2))
+            comp = {e: ca * a.get(e, 0) + cb * b.get(e, 0) for e in elems if ca * a.get(e, 0) + cb * b.get(e, 0)}
+        comps.append(comp)
+    # one or two species get one or two decimal subscripts
+    for _ in range(draw(st.sampled_from([1, 1, 2]))):
+        j = draw(st.integers(0, n - 1))
+        comp = dict(comps[j])
+        style = draw(st.sampled_from(["one", "complement", "one", "two"]))
+        e1 = elems[draw(st.integers(0, nk - 1))]
+        f1 = draw(st.sampled_from(_NS_FRACTIONS))
+        whole = draw(st.sampled_from([0, 0, 1, 2, 0]))
+        comp[e1] = whole + f1
+        if style != "one" and nk >= 2:
+            e2 = elems[(elems.index(e1) + 1 + draw(st.integers(0, nk - 2))) % nk]
+            if style == "complement":                        # A(x) B(1-x): substitution on one lattice site
+                comp[e1] = f1
+                comp[e2] = 1 - f1
+            else:
+                comp[e2] = draw(st.sampled_from([0, 1, 0, 2])) + draw(st.sampled_from(_NS_FRACTIONS))
+        comps[j] = comp
+    return {
+        "elems": elems, "comps": comps,
+        "via": draw(st.sampled_from(["dict", "formula", "formula_string", "formula_dict"])),
+        "prune_zero": draw(st.sampled_from([True, True, False, True])),
+        "plan": draw(st.sampled_from(["planted"] * 8 + ["wrong_side", "free"])),
+        "weights": draw(st.lists(st.sampled_from([1, -1, 2, -2, 0, 3, -3]), min_size=6, max_size=6)),
+        "bits": draw(st.lists(st.booleans(), min_size=n, max_size=n)),
+        "flip": draw(st.integers(0, 11)),
+        "perm": draw(st.permutations(list(range(n)))),
+        "container": draw(st.sampled_from(["list", "set"])),
+    }
+
+
+def _finalize_fractional(raw):
+    elems = raw["elems"]
+    comps, texts = [], []
+    for comp in raw["comps"]:
+        txt = formula_text(comp, elems)
+        if raw["via"] == "dict" or txt not in texts:       # formulas name the species: no duplicates
+            comps.append(comp)
+            texts.append(txt)
+    if len(comps) < 2:
+        comps.append({"O": Fraction(2)} if texts[0] != "O2" else {"O": Fraction(3)})
+        texts.append(formula_text(comps[-1], elems))
+    n = len(comps)
+    sub = dict(raw, kind="fractional", comps=[{Z_OF[e]: v for e, v in c.items()} for c in comps],
+               bits=raw["bits"][:n], perm=[p for p in raw["perm"] if p < n],
+               substances={"dict": "dict", "formula": "none", "formula_string": "string",
+                           "formula_dict": "dict"}[raw["via"]])
+    if raw["via"] != "dict":
+        sub["names"] = texts
+    case = _finalize_synthetic(sub)
+    case["via"] = raw["via"]
+    if raw["via"] == "dict":                               # for the reader of a counterexample only
+        case["formulas"] = {nm: txt for nm, txt in zip(["S%d" % p for p in sub["perm"]], texts)
+                            if nm in case["species"]}
+    return case
+
+
+def fractional_cases():
+    return _raw_fractional().map(_finalize_fractional)
